@@ -8,6 +8,7 @@ beanquery.query_render.render_text / render_csv (and render/text.py, render/csv.
      is validated against the real DisplayContext for every generated amount-like column."""
 import datetime
 import decimal
+import enum
 import io
 import json
 
@@ -24,6 +25,15 @@ from beanquery.render import text as render_text_mod, csv as render_csv_mod
 
 D = decimal.Decimal
 
+
+class Flag(enum.Enum):
+    """An enum datatype for EnumRenderer columns (format = member name)."""
+    OK = 1
+    PENDING = 2
+    X = 3
+    VERY_LONG_MEMBER_NAME = 4
+
+
 ASSUMPTIONS = [
     'str(int), str(Decimal), format(Decimal, "<n"), date.strftime("%Y-%m-%d") (glibc: year not zero padded), str.center '
     '(CPython rounding rule), sorted(set of str), csv.writer (excel dialect, QUOTE_MINIMAL) are modelled by hand and '
@@ -32,22 +42,23 @@ ASSUMPTIONS = [
     '(DisplayContext.build(Align.DOT)); theorems about them assume the formatter returns strings of one length for all '
     'numbers of the column and for zero (validated against the real DisplayContext on every generated column; '
     'failures are reported as violations); their cells are checked on the implementation output by check_table only',
-    'Inventory columns without expand (per-commodity tabular layout) and CostRenderer/EnumRenderer are not in the '
-    'functional model; non-expanded inventories are checked relationally (token stream), Cost/Enum columns not generated',
+    'Inventory columns without expand (per-commodity tabular layout) and CostRenderer are not in the functional model; '
+    'non-expanded inventories are checked relationally (token stream), Cost columns not generated; EnumRenderer '
+    '(ObjectRenderer with format = value.name) is modelled as a str column over the member names',
     'values are well typed for their column (BQL columns are typed); dict/other objects enter the model as their str()',
     'Decimals are finite (NaN/Infinity raise TypeError in DecimalRenderer.update; not generated)',
 ]
 
 # ------------------------------------------------------------------ cases (JSON-able)
-# cell encodings: None | ['b',bool] | ['i',int] | ['d',str] | ['s',str] | ['D',y,m,d] | ['S',[str]] | ['o',dict]
+# cell encodings: None | ['e',member name] | ['b',bool] | ['i',int] | ['d',str] | ['s',str] | ['D',y,m,d] | ['S',[str]] | ['o',dict]
 #                 | ['A',num,cur] | ['P',num,cur,cnum,ccur] (cnum None = no cost) | ['I',[[num,cur,cnum,ccur]...]]
 
-TYPES = ['int', 'decimal', 'str', 'date', 'bool', 'set', 'object', 'dict', 'amount', 'position', 'inventory']
-EXACT = {'int', 'decimal', 'str', 'date', 'bool', 'set', 'object', 'dict'}
+TYPES = ['int', 'decimal', 'str', 'date', 'bool', 'set', 'object', 'dict', 'enum', 'amount', 'position', 'inventory']
+EXACT = {'int', 'decimal', 'str', 'date', 'bool', 'set', 'object', 'dict', 'enum'}
 COQ_T = {'int': 'TInt', 'decimal': 'TDecimal', 'str': 'TStr', 'date': 'TDate', 'bool': 'TBool', 'set': 'TSet',
-         'object': 'TObject', 'dict': 'TObject', 'amount': 'TAmount', 'position': 'TPosition', 'inventory': 'TInventory'}
+         'object': 'TObject', 'dict': 'TObject', 'enum': 'TStr', 'amount': 'TAmount', 'position': 'TPosition', 'inventory': 'TInventory'}
 PY_T = {'int': int, 'decimal': D, 'str': str, 'date': datetime.date, 'bool': bool, 'set': set, 'object': object,
-        'dict': dict, 'amount': Amount, 'position': Position, 'inventory': Inventory}
+        'dict': dict, 'enum': Flag, 'amount': Amount, 'position': Position, 'inventory': Inventory}
 
 INTS = [0, 1, 5, -3, 42, 12345, -100, 10 ** 12, -(10 ** 9), 7, 99, 100]
 DECS = ['0', '1', '1.0', '-1.5', '12.345', '0.001', '-0.0', '100', '2.50', '-123456.78', '0.000001', '3', '0.5', '10',
@@ -88,6 +99,8 @@ def gen_cell(rng, t, null_p, feat):
         return ['S', sorted(rng.sample(TAGS, rng.choice([0, 0, 1, 1, 2, 3, 4])))]
     if t == 'object':
         return gen_cell(rng, rng.choice(['int', 'decimal', 'str', 'date', 'bool']), 0, feat)
+    if t == 'enum':
+        return ['e', rng.choice([m.name for m in Flag])]
     if t == 'dict':
         n = rng.choice([0, 1, 2])
         return ['o', {rng.choice(['k', 'key', 'filename']): rng.choice(['v', 1, 'x.bean']) for _ in range(n)}]
@@ -136,7 +149,7 @@ def gen_table(rng, risky=False):
     null_p = rng.choice([0.0, 0.15, 0.3, 0.6])
     kind = rng.random()
     if kind < 0.45:
-        pool = ['int', 'decimal', 'str', 'date', 'bool', 'set', 'object', 'dict']
+        pool = ['int', 'decimal', 'str', 'date', 'bool', 'set', 'object', 'dict', 'enum']
     elif kind < 0.8:
         pool = TYPES
     else:
@@ -187,7 +200,7 @@ def cell_coq(c):
         return f'(CInt {cZ(c[1])})'
     if k == 'd':
         return f'(CDec {dec_coq(c[1])})'
-    if k == 's':
+    if k in 'se':      # EnumRenderer = ObjectRenderer whose format() is value.name: a str column over the member names
         return f'(CStr {cstr(c[1])})'
     if k == 'D':
         return f'(CDate {c[1]} {c[2]} {c[3]})'
@@ -217,6 +230,8 @@ def cell_py(c):
         return c[1]
     if k == 'd':
         return D(c[1])
+    if k == 'e':
+        return Flag[c[1]]
     if k == 'D':
         return datetime.date(c[1], c[2], c[3])
     if k == 'S':
